@@ -16,7 +16,8 @@ def is_number(x):
 def search_matches(method, needle, haystack):
     th = Nodes.typed_value(haystack)
     tn = Nodes.typed_value(needle)
-    text = str(haystack)      # the value's own text (the statement: tests 'act on the value's text')
+    # the value's own text (the statement: tests 'act on the value's text'); a boolean's text is True / False
+    text = str(th) if (isinstance(th, bool) and not isinstance(haystack, str)) else str(haystack)
     term = str(needle)
     if method is PathSearchMethods.EQUALS:
         # numeric when both sides are numbers of the same kind, textual otherwise
